@@ -792,7 +792,11 @@ fn execution(case: &XCase, verdict: &Arc<Verdict>, cov: &Arc<Coverage>, wait_for
     }
     drop(exe_waker);
     drop(st);
-    sched_common::quarantine::release();
+    let double_frees = sched_common::quarantine::release();
+    if double_frees > 0 {
+        verdict.note("C04/memory/double-free", format!("{double_frees} heap block(s) were freed twice during the execution"));
+        panic!("oracle verdict recorded");
+    }
 }
 
 #[derive(Default)]
